@@ -19,7 +19,8 @@ class C16(ParserSessionProp):
             'log(beta)+best by 1e-4..0.5, rows flattened to -1e33 by the real apply_category_filters; beta in '
             '{1e-5,0.01,0.3,0.9}, filter on/off, pruning_size 1-8.  Independent beam model with an epsilon band '
             '(either-way zone).  Oracles: every leaf tag of every returned tree is not surely excluded; if no '
-            'derivation exists over the not-surely-excluded tags the response is the failure placeholder. '
+            'derivation exists over the not-surely-excluded tags the response is the failure placeholder; if one exists over '
+            'the surely-admitted tags and the budget was not hit the response is not a failure. '
             'Distinct = digest of (row, config); non-trivial = the model surely excludes >= 1 tag of the row.')
 
     def knobs(self, rng, tier, options):
@@ -44,12 +45,22 @@ class C16(ParserSessionProp):
             s['beam_mode'] = mode
             if mode == 'none' or T < 2:
                 continue
+            fav = s.get('favoured')
             for i in range(n):
                 if rng.random() < 0.3:
                     continue
                 row = tag[i]
                 order = numpy.argsort(-row, kind='stable')
                 best = float(row[order[0]])
+                if mode in ('straddle', 'far') and fav and rng.random() < 0.5 and int(order[0]) != fav[i]:
+                    # put the tag the sentence's known derivation needs at the threshold
+                    t = fav[i]
+                    if mode == 'straddle':
+                        delta = rng.choice([-0.5, -0.05, -1e-3, 0.0, 1e-3, 0.05, 0.5])
+                        row[t] = numpy.float32(best + math.log(beta) + delta)
+                    else:
+                        row[t] = numpy.float32(best + math.log(beta) - rng.choice([3.0, 20.0, 100.0, 200.0]))
+                    continue
                 if mode == 'straddle':
                     t = int(order[rng.randrange(1, T)])
                     delta = rng.choice([-0.5, -0.05, -1e-3, -1e-4, 0.0, 1e-4, 1e-3, 0.05, 0.5])
@@ -70,6 +81,8 @@ class C16(ParserSessionProp):
                 for w in words:
                     if rng.random() < 0.6:
                         keep = rng.sample(range(T), rng.randint(1, max(1, T - 1)))
+                        if fav and rng.random() < 0.5 and fav[words.index(w)] in keep and len(keep) > 1:
+                            keep.remove(fav[words.index(w)])     # the needed tag gets flattened
                         cat_dict[w] = [cats[k] for k in keep]
                 doc = [[Token.of_word(w) for w in words]]
                 dep = gen.hex_to_arr(s['dep'])
@@ -112,6 +125,24 @@ class C16(ParserSessionProp):
                 bump(stats, 'probe:row_flattened_by_category_dictionary')
             if refparser.is_placeholder(resp):
                 bump(stats, 'placeholders_checked')
+                # (3) tags the beam surely admits are available to the search ("with the filter disabled only
+                # pruning_size limits the choice"): a derivation over them means the sentence must not fail
+                if p['pops'] < p['max_step']:
+                    try:
+                        lb = refparser.viterbi(n, world.tag0[sid], world.dep0[sid], world.categories, surely,
+                                               world.memo, world.roots, penalty)
+                    except refparser.RefOverflow:
+                        lb = None
+                    if lb is not None:
+                        weakest = min(float(world.tag0[sid][i][t]) for i in range(n) for t in surely[i])
+                        out.append(Violation(
+                            oracle='admitted_tags_available',
+                            message=(f'sentence {sid} failed after {p["pops"]} of {p["max_step"]} steps although a derivation '
+                                     f'(score {lb:.6g}) exists over tags the beam admits (pruning_size {cfg["pruning_size"]}, '
+                                     f'use_beta {cfg["use_beta"]}, beta {cfg["beta"]}; weakest admitted tag score {weakest:.6g})'),
+                            signature={'kind': 'filter_on' if cfg['use_beta'] else 'filter_off'}))
+                        return out
+                    bump(stats, 'failures_confirmed_no_derivation_over_admitted_tags')
                 continue
             # a parse was returned: (1) its leaf tags must not be surely excluded
             for st in resp:
